@@ -98,13 +98,17 @@ def showAnn (a : Option (Nat × Option Nat)) : String :=
   | some (h, none) => s!"h{h}"
   | some (h, some m) => s!"h{h}/mark{m}"
 
-def explainAt (p : Program) (H : Ann) (B : Array Bool) (pc : Nat) : Option String :=
+def explainAt (p : Program) (H : Ann) (pc : Nat) : Option String :=
   match H.at pc with
   | none => none
   | some (h, m) =>
     let s : St := ⟨pc, h, m⟩
     let op := opNameAt p pc
-    if !(B.getD pc false) then some s!"rule=boundary pc={pc} op={op} reached-offset-is-not-an-instruction-boundary"
+    if !(interiorFree p H pc) then
+      let inner := match decode p pc with
+        | some i => (List.range (i.len - 1)).filter (fun k => (H.at (pc + 1 + k)).isSome) |>.map (· + pc + 1)
+        | none => []
+      some s!"rule=overlap pc={pc} op={op} reached-offsets-inside-this-instruction={inner}"
     else if !(decide (h + 1 ≤ p.declared)) then some s!"rule=declared pc={pc} op={op} height={h} declared={p.declared}"
     else if !(refsOk p pc) then some s!"rule=reference pc={pc} op={op}"
     else if (match endHeight p s with | none => false | some k => k != 0) then some s!"rule=end-height pc={pc} op={op} height={h}"
@@ -118,23 +122,17 @@ def explainAt (p : Program) (H : Ann) (B : Array Bool) (pc : Nat) : Option Strin
           else none
 
 def explain (p : Program) (H : Ann) : String :=
-  match boundaries p with
-  | none => match sweepFail p p.size 0 with
-    | some pc => s!"rule=sweep pc={pc} op={opNameAt p pc}"
-    | none => "rule=sweep pc=0 op=?"
-  | some bl =>
-    let B := markAll bl p.size
-    if H.size ≠ p.size then "rule=annotation-size pc=0 op=?"
-    else match firstSome p.entries (fun e =>
-        if !(decide (e < p.size)) then some s!"rule=entry-outside pc={e} op=?"
-        else if !(H.holds (St.start e)) then some s!"rule=entry-height pc={e} op={opNameAt p e} annotated={showAnn (H.at e)}"
-        else none) with
+  if H.size ≠ p.size then "rule=annotation-size pc=0 op=?"
+  else match firstSome p.entries (fun e =>
+      if !(decide (e < p.size)) then some s!"rule=entry-outside pc={e} op=?"
+      else if !(H.holds (St.start e)) then some s!"rule=entry-height pc={e} op={opNameAt p e} annotated={showAnn (H.at e)}"
+      else none) with
+    | some r => r
+    | none => match firstSome (List.range p.size) (explainAt p H) with
       | some r => r
-      | none => match firstSome (List.range p.size) (explainAt p H B) with
+      | none => match firstSome p.catches (fun c => if catchOk p c then none else some s!"rule=catch-range pc={c.tryStart} op=? end={c.tryEnd}") with
         | some r => r
-        | none => match firstSome p.catches (fun c => if catchOk p B c then none else some s!"rule=catch-range pc={c.tryStart} op=? end={c.tryEnd}") with
-          | some r => r
-          | none => if !(marginOk p H) then s!"rule=margin pc=0 op=? declared={p.declared}" else "rule=unknown pc=0 op=?"
+        | none => if !(marginOk p H) then s!"rule=margin pc=0 op=? declared={p.declared}" else "rule=unknown pc=0 op=?"
 
 /-! ### the dynamic side -/
 
@@ -207,8 +205,13 @@ def answer (ts : List String) : String :=
     if ok then
       let reached := (List.range p.size).filter (fun pc => (H.at pc).isSome)
       let maxh := reached.foldl (fun m pc => match H.at pc with | some (h, _) => max m h | none => m) 0
-      let instrs := match boundaries p with | some l => l.length | none => 0
-      s!"accept instrs={instrs} reached={reached.length} maxh={maxh} ops={histogram p H}"
+      -- diagnostics: does the whole buffer decode front to back? (stale tail of absorbed instructions otherwise)
+      let linear := match boundaries p with
+        | some l => s!"instrs={l.length} tail=clean"
+        | none => match sweepFail p p.size 0 with
+          | some pc => s!"instrs=0 tail=stale@{pc}"
+          | none => "instrs=0 tail=?"
+      s!"accept {linear} reached={reached.length} maxh={maxh} ops={histogram p H}"
     else s!"reject {explain p H}"
   let starts := ((field ts "starts").splitOn ",").filterMap parseObs
   let edges := parseEdges (field ts "edges")
